@@ -218,9 +218,13 @@ func (c05) Gen(rng *simrt.Rand, seed uint64, tier string) *Case {
 	}
 	n := 3 + rng.Intn(maxRows)
 	perfA := &PerfSpec{ResultChan: []int{1, 2, 4, 64}[rng.Intn(4)], Workers: 1 + rng.Intn(3), PoolSize: 1 + rng.Intn(3)}
-	if rng.Bool(0.5) {
+	switch rng.Intn(5) {
+	case 0, 1:
 		perfA.Strategy, perfA.BlockTimeout, perfA.DataChan = "block", int64(time.Hour), 1+rng.Intn(4)
-	} else {
+	case 2:
+		// the input buffer grows while rows flow (rows are migrated to a larger channel)
+		perfA.Strategy, perfA.DataChan, perfA.Growth, perfA.MinInc, perfA.Threshold, perfA.MaxBuffer = "expand", 1+rng.Intn(3), []float64{1.5, 2}[rng.Intn(2)], 1+rng.Intn(2), []float64{0.8, 1.0}[rng.Intn(2)], 4*n+16
+	default:
 		perfA.Strategy, perfA.DataChan = "drop", n+8
 	}
 	sinksA := []SinkSpec{{Mode: "sync"}, {Mode: "async"}}
